@@ -395,6 +395,7 @@ type SpecSig struct {
 	Params []Sort
 	Result Sort
 	Heap   []string // heap components passed implicitly (before the explicit arguments)
+	Unfold bool     // instantiate NAME$def at every ground occurrence
 }
 
 type SpecTable struct {
@@ -437,6 +438,11 @@ func (st *SpecTable) scan(text string) {
 	// heap directives
 	for _, line := range strings.Split(text, "\n") {
 		line = strings.TrimSpace(line)
+		if strings.HasPrefix(line, ";@unfold ") {
+			for _, n := range strings.Fields(line)[1:] {
+				st.get(n).Unfold = true
+			}
+		}
 		if strings.HasPrefix(line, ";@opaque ") {
 			st.opaque = append(st.opaque, strings.Fields(line)[1:]...)
 		}
@@ -512,6 +518,7 @@ type specCtx struct {
 	bound   map[string]TV
 	pos     token.Pos
 	where   string
+	real    *State
 }
 
 func (fe *FuncEnc) evalClause(f *Frame, c *Clause, cur, old *State, names map[string]TV, results []Term, pos token.Pos) (t Term) {
@@ -820,7 +827,7 @@ func (c *specCtx) index(base, idx TV) TV {
 		switch t := base.Typ.Underlying().(type) {
 		case *types.Slice:
 			es := so.sortOf(t.Elem())
-			e := fe.comp(c.cur, "E_"+sortKey(es), arrSort(SInt, arrSort(SInt, es)))
+			e := fe.comp(c.cur, "E_"+so.elemKey(t.Elem()), arrSort(SInt, arrSort(SInt, es)))
 			i := c.coerce(idx, SInt)
 			return TV{tSelect(tSelect(e, slRef(base.T)), absIndex(slOff(base.T), i)), t.Elem()}
 		case *types.Map:
@@ -969,6 +976,9 @@ func (c *specCtx) withState(old bool, f func() TV) TV {
 		return f()
 	}
 	saved := c.cur
+	if c.real == nil {
+		c.real = c.cur
+	}
 	c.cur = c.old
 	defer func() { c.cur = saved }()
 	return f()
@@ -991,6 +1001,13 @@ func (c *specCtx) call(x *ast.CallExpr) TV {
 	switch name {
 	case "old":
 		return c.withState(true, func() TV { return c.eval(x.Args[0]) })
+	case "now": // inside old(...): evaluate the argument in the current state again
+		saved := c.cur
+		if c.real != nil {
+			c.cur = c.real
+		}
+		defer func() { c.cur = saved }()
+		return c.eval(x.Args[0])
 	case "implies":
 		return TV{tImp(arg(0).T, arg(1).T), boolT}
 	case "iff":
@@ -1155,7 +1172,11 @@ func (c *specCtx) call(x *ast.CallExpr) TV {
 	if len(args) == 0 {
 		return TV{Term{name, sig.Result}, nil}
 	}
-	return TV{Term{app(name, args...), sig.Result}, nil}
+	t := Term{app(name, args...), sig.Result}
+	if sig.Unfold && !strings.Contains(t.S, "q_") {
+		fe.assume(tBool(true), Term{"(= " + t.S + " " + app(name+"$def", args...) + ")", SBool})
+	}
+	return TV{t, nil}
 }
 
 func (e *Engine) exprText(x ast.Expr) string {
